@@ -898,12 +898,12 @@ pub fn build(case: &Case) -> Run {
         .with_api(api)
         .with_storage(SimStorage::new())
         .with_bank(RecBank { inner: BankKeeper::new(), world: world.clone() })
-        .with_custom(RecCustom { world: world.clone() })
+        .with_custom(RecCustom { world: world.clone(), inner: CustomInner::Stub })
         .with_staking(RecStaking { inner: StakeKeeper::new(), world: world.clone() })
         .with_distribution(RecDistr { inner: DistributionKeeper::new(), world: world.clone() })
-        .with_ibc(RecIbc { world: world.clone() })
-        .with_gov(RecGov { world: world.clone() })
-        .with_stargate(RecStargate { world: world.clone() })
+        .with_ibc(RecIbc { world: world.clone(), inner: IbcInner::Stub })
+        .with_gov(RecGov { world: world.clone(), inner: GovInner::Stub })
+        .with_stargate(RecStargate { world: world.clone(), inner: StargateInner::Stub })
         .build(|router, api, storage| {
             for a in addrs2.iter().take(nd) {
                 router.bank.inner.init_balance(storage, &Addr::unchecked(a.clone()), vec![coin(init, DENOM), coin(1000, "denom1")]).unwrap();
